@@ -13,11 +13,11 @@ import (
 
 // dispatchCase is one arm of a type switch that allocates a concrete implementer.
 type dispatchCase struct {
-	K     constant.Value
-	T     types.Type // concrete type wrapped into the interface
-	Test  *ssa.BasicBlock
-	Body  *ssa.BasicBlock
-	Tag   ssa.Value // the switched-on value
+	K    constant.Value
+	T    types.Type // concrete type wrapped into the interface
+	Test *ssa.BasicBlock
+	Body *ssa.BasicBlock
+	Tag  ssa.Value // the switched-on value
 }
 
 // dispatchTable reads, from the φ-node that merges the allocated implementers of interface
